@@ -259,6 +259,7 @@ type cluster struct {
 	nodes     []*cnode // index = member index; nil for Byzantine members
 	bodies    map[string]bool
 	bodiesMu  sync.Mutex
+	byHash    map[string]string
 	lenient   bool // consumer validators accept a proposal without a block
 	genesisOk bool
 }
@@ -266,6 +267,10 @@ type cluster struct {
 func (cl *cluster) addBody(b string) {
 	cl.bodiesMu.Lock()
 	cl.bodies[b] = true
+	if cl.byHash == nil {
+		cl.byHash = map[string]string{}
+	}
+	cl.byHash[string(hashOfBody(b))] = b
 	cl.bodiesMu.Unlock()
 }
 
